@@ -246,6 +246,11 @@ UNITS = [
       bound='2 dimensions of at most 3 each, float elements, image of at most 12 bytes',
       props={'memsafe': ['C13', 'C16'], 'ub': ['C13']},
       assumes=['plain symbolic execution of the real recursive c3d::readParam (float form); readFloat = value stub (proved contract)']),
+    U('B_Data_write', 'contracts/bounded_data_write.c', 'h_B_Data_write', [], ['C01', 'C03', 'C12', 'C14', 'C13'], mode='bmc',
+      unwind=5, unwindset={'vf_stream_write.0': 6}, timeout=1800, level='B', object_bits=12, tier='thorough',
+      bound='at most 2 frames x 2 points x 2 sub-frames x 2 channels (uniform shape), start offset <= 8',
+      props={'memsafe': ['C13'], 'ub': ['C13']},
+      assumes=['plain symbolic execution of the real writer stack Data::write ... Point::write / Channel::write over the stream model']),
     U('Parameters_write', WR, 'h_Parameters_write', ['Parameters__write/contract_Parameters__write'],
       ['C01', 'C03', 'C13', 'C14', 'C10'], replace=['Group__write/contract_abs_Group__write'], unwind=5, loops=True, timeout=900,
       pre_unwind={'vf_stream_write.0': 5, 'Parameters__write.0': 3},
